@@ -1,6 +1,8 @@
 import Norad.Model.FontSave
 import Norad.Lemmas.FontSave
 import Norad.Lemmas.SafePlan
+import Norad.Lemmas.Determined
+import Norad.Lemmas.LayerDir
 /-!
 # C09 — a saved tree depends only on the font and stays inside the target
 
@@ -9,7 +11,7 @@ joined onto the target without normalisation, as in the code, and resolved by th
 way the kernel does.  Specification side: `FontSave.safePaths`, `FontSave.expectedPaths`.
 -/
 namespace C09
-open AbsFS FontSave
+open AbsFS FontSave FontLoad
 
 variable {β : Type}
 
@@ -140,11 +142,122 @@ theorem save_tree_depends_only_on_font (cfg : Cfg β) (f : AFont β) (fsA fsB fs
       have cB := wipe_mkdir_clean hwB hwipeB hkB
       exact runN_agree t _ hrestA hrestB (fun q hq => by rw [cA q hq, cB q hq])
 
+/-- **`exactly_the_determined_files`** (explicit form).  After a successful save of a font with safe paths onto `t` in a
+    well-formed file system, a path at or below `t` exists with kind `k` (`false` = directory, `true` = plain file)
+    **iff** `(path, k)` is in `expectedPaths f t` — a list computed from the font alone.  So: no remains of whatever
+    was there, `metainfo.plist` / `layercontents.plist` / every `contents.plist` always, each optional file exactly
+    when its content is not the empty default, `data/` and `images/` exactly when non-empty. -/
+theorem exactly_the_determined_files (cfg : Cfg β) (f : AFont β) (fs fs' : FS β) (t : APath)
+    (hs : safePaths f = true) (hwf : WF fs) (h : saveImpl cfg f fs t = (none, fs')) :
+    ∀ q k, t <+: q → (kindAt fs' q = some k ↔ (q, k) ∈ expectedPaths f t) := by
+  intro q k htq
+  obtain ⟨d, i, fs1, hv, hwipe, hrun⟩ := saveImpl_ok h
+  obtain ⟨hsd, hsi⟩ := forced_safe hs hv
+  obtain ⟨hfd, hfi⟩ := validatePhase_ok_stores hv
+  rw [plan_normal cfg f d i t hs hsd hsi] at hrun
+  obtain ⟨g2, hm, hrest⟩ := runN_cons_ok (es := planRestN cfg f d i t) hrun
+  simp only [NEff.toEff, runEff] at hm
+  cases hk : mkdir fs1 (tC t) with
+  | error x => simp [hk] at hm
+  | ok a =>
+    simp only [hk] at hm
+    cases hm
+    obtain ⟨htne, _, _, _⟩ := mkdir_tC hk
+    have hclean := wipe_mkdir_clean hwf hwipe hk q htq
+    have hq0 : q ≠ [] := by
+      intro e; subst e; exact htne (List.prefix_nil.mp htq)
+    have hk2 : kindAt g2 q = some k ↔ (q, k) = (t, false) := by
+      unfold kindAt
+      rw [node_of_ne_nil _ hq0, hclean]
+      by_cases e : t = q
+      · subst e; simp [kindOf]
+      · have : ¬ q = t := fun x => e x.symm
+        simp [e, this]
+    rw [runN_kinds _ hrest q k, hk2]
+    exact determined_core cfg f d i t (forceList_keys hfd) (forceList_keys hfi) hsd
+      (runN_no_fail _ hrest) q k htq
+
+/-- reading off one optional file: after a successful save `fontinfo.plist` is listed by `expectedPaths` iff the font
+    info is not the empty default or a (crafted) layer directory / glif carries that very name -/
+theorem fontinfo_listed_of_nonempty (f : AFont β) (t : APath) (h : f.info.isEmpty = false) :
+    (t ++ ["fontinfo.plist".toList], true) ∈ expectedPaths f t := by
+  unfold expectedPaths
+  simp [h, expTop]
+
+/-- fonts whose relative paths are single normal components — what the container API assigns: C07's contract
+    "assigned file names are single normal components", `glyphs` / `glyphs.*` for layers, `file_name()` on load —
+    and whose store keys are safe satisfy the guard -/
+theorem api_built_fonts_safe (f : AFont β)
+    (hl : ∀ l ∈ f.layers, safeRel (Path.parse l.dir) = true ∧ ∀ e ∈ l.entries, safeRel (Path.parse e.file) = true)
+    (hd : ∀ kc ∈ f.data.items, safeRel kc.1 = true) (hi : ∀ kc ∈ f.images.items, safeRel kc.1 = true) :
+    safePaths f = true := by
+  unfold safePaths
+  simp only [Bool.and_eq_true, List.all_eq_true]
+  exact ⟨⟨fun l hlm => ⟨(hl l hlm).1, (hl l hlm).2⟩, hd⟩, hi⟩
+
+/-! ### the load side: for a loaded font only glif paths need the guard -/
+
+/-- **Every layer of a font returned by `loadImpl` has a directory that is one normal component** (the `file_name()` of
+    layer.rs:376, or `glyphs` for the placeholder): read back as a path it is exactly `[normal dir]` — whatever
+    `layercontents.plist` said (`../sketches.glyphs`, `a/b`, an absolute path), for every request.  `goodName` on the
+    names of the load path says that they are path components (no separator, not `.`/`..`). -/
+theorem loaded_layer_dirs_single_component (P : Parser β) (fs0 : FS β) (t0 : APath) (r : Request) (f : AFont β)
+    (h : loadImpl P fs0 t0 r = .ok f) (ht : ∀ n ∈ t0, goodName n = true) :
+    ∀ l ∈ f.layers, Path.parse l.dir = ⟨false, [.normal l.dir]⟩ :=
+  fun l hl => parse_goodName (loadImpl_layer_dirs_good h ht l hl)
+
+/-- the store keys of a loaded font are non-empty lists of normal components (they come from a directory listing) -/
+theorem loaded_store_keys_safe (P : Parser β) (fs0 : FS β) (t0 : APath) (r : Request) (f : AFont β)
+    (h : loadImpl P fs0 t0 r = .ok f) :
+    (∀ kc ∈ f.data.items, safeRel kc.1 = true) ∧ (∀ kc ∈ f.images.items, safeRel kc.1 = true) := by
+  obtain ⟨hd, hi⟩ := loadImpl_stores h
+  exact ⟨loadStore_keys_safe hd, loadStore_keys_safe hi⟩
+
+/-- hence `safePaths` of a loaded font reduces to its glif paths (the `contents.plist` values, kept verbatim) -/
+theorem loaded_font_safePaths (P : Parser β) (fs0 : FS β) (t0 : APath) (r : Request) (f : AFont β)
+    (h : loadImpl P fs0 t0 r = .ok f) (ht : ∀ n ∈ t0, goodName n = true)
+    (hglif : ∀ l ∈ f.layers, ∀ e ∈ l.entries, safeRel (Path.parse e.file) = true) :
+    safePaths f = true := by
+  obtain ⟨hd, hi⟩ := loaded_store_keys_safe P fs0 t0 r f h
+  exact api_built_fonts_safe f
+    (fun l hl => ⟨safeRel_goodName (loadImpl_layer_dirs_good h ht l hl), hglif l hl⟩) hd hi
+
+/-- **`save_frame` for loaded fonts**: the guard is needed for glif paths only -/
+theorem save_frame_loaded (P : Parser β) (cfg : Cfg β) (fs0 : FS β) (t0 : APath) (r : Request) (f : AFont β)
+    (h : loadImpl P fs0 t0 r = .ok f) (ht : ∀ n ∈ t0, goodName n = true)
+    (hglif : ∀ l ∈ f.layers, ∀ e ∈ l.entries, safeRel (Path.parse e.file) = true)
+    (fs : FS β) (t : APath) :
+    ∀ q, ¬ t <+: q → lookup (saveImpl cfg f fs t).2 q = lookup fs q :=
+  save_frame cfg f fs t (loaded_font_safePaths P fs0 t0 r f h ht hglif)
+
+/-- non-vacuity: a `layercontents.plist` naming the sibling directory `../sk.glyphs` loads, and the layer keeps `sk.glyphs` -/
+def siblingParser : Parser Nat where
+  metainfo _ := some (3, 1)
+  lib _ := none
+  fontinfo _ := none
+  groups _ := none
+  kerning _ := none
+  features _ := none
+  layercontents _ := some [("public.default".toList, "glyphs".toList), ("sk".toList, "../sk.glyphs".toList)]
+  contents _ := some []
+  layerinfo _ := none
+  glif _ := none
+
+def siblingTree : FS Nat :=
+  [(["o".toList], .dir), (["o".toList, "t".toList], .dir), (["o".toList, "t".toList, "metainfo.plist".toList], .file 0),
+   (["o".toList, "t".toList, "layercontents.plist".toList], .file 0),
+   (["o".toList, "t".toList, "glyphs".toList], .dir),
+   (["o".toList, "t".toList, "glyphs".toList, "contents.plist".toList], .file 0),
+   (["o".toList, "sk.glyphs".toList], .dir), (["o".toList, "sk.glyphs".toList, "contents.plist".toList], .file 0)]
+
+example : ∃ f, loadImpl siblingParser siblingTree ["o".toList, "t".toList] Request.everything = .ok f ∧
+    f.layers.map (·.dir) = ["glyphs".toList, "sk.glyphs".toList] ∧ safePaths f = true :=
+  ⟨_, rfl, by decide, by decide⟩
+
 /-! ### `save_frame` is false without the guard (recorded findings)
 
-OPEN: `exactly_the_determined_files` in the form "the paths at and below `t` after a successful save are exactly
-`expectedPaths f t`" (checked on every generated case by the oracle rule `exact-files`); what is proved is that
-the sub-tree is a function of the font (`save_tree_depends_only_on_font`) and the emptiness gates of the plan. -/
+(`exactly_the_determined_files` above is proved in its explicit form; the oracle rule `exact-files` checks the same
+statement on the implementation's own output.) -/
 
 def cfgN : Cfg Nat := { render := fun _ => 0, entryOk := fun _ _ _ _ => true }
 
@@ -182,17 +295,6 @@ theorem save_frame_counterexample_contents_value :
 /-- both counterexample fonts are rejected by the guard, the base font is not (the guard is not vacuous) -/
 theorem guard_separates :
     safePaths keyFont = false ∧ safePaths glifFont = false ∧ safePaths baseFont = true := by decide
-
-/-- fonts whose relative paths are single normal components — what the container API assigns: C07's contract
-    "assigned file names are single normal components", `glyphs` / `glyphs.*` for layers, `file_name()` on load —
-    and whose store keys are safe satisfy the guard -/
-theorem api_built_fonts_safe (f : AFont β)
-    (hl : ∀ l ∈ f.layers, safeRel (Path.parse l.dir) = true ∧ ∀ e ∈ l.entries, safeRel (Path.parse e.file) = true)
-    (hd : ∀ kc ∈ f.data.items, safeRel kc.1 = true) (hi : ∀ kc ∈ f.images.items, safeRel kc.1 = true) :
-    safePaths f = true := by
-  unfold safePaths
-  simp only [Bool.and_eq_true, List.all_eq_true]
-  exact ⟨⟨fun l hlm => ⟨(hl l hlm).1, (hl l hlm).2⟩, hd⟩, hi⟩
 
 /-- the saved tree of the base font, as the model computes it: exactly the determined files -/
 example : (saveImpl cfgN baseFont outer target).1 = none ∧
